@@ -88,6 +88,7 @@ type Results struct {
 	vecPerHarness map[string]int
 	Solver        SolverStats
 	Feasibility   int64
+	CacheHits     int64
 	AssertQueries int64
 	PerHarness    map[string]*HarnessStats
 	InitWarn      []string
@@ -151,7 +152,19 @@ func (x *Exec) replayEntry(kind byte, cond func(v int64) *Term) int64 {
 	return v
 }
 
+func (x *Exec) keepModelIf(c *Term) {
+	if x.mdl == nil || c == nil {
+		return
+	}
+	if v, ok := x.mdl.eval(c); !ok || v == 0 {
+		x.mdl = nil
+	}
+}
+
 func (x *Exec) pushEntry(kind byte, opts []int64, c *Term) {
+	if kind != 'b' {
+		x.keepModelIf(c)
+	}
 	x.trail = append(x.trail, entry{kind: kind, opts: opts})
 	x.sol.Push()
 	if c != nil {
@@ -187,12 +200,28 @@ func (x *Exec) branch(c *Term) bool {
 	if !x.newRegion() {
 		return x.replayEntry('b', cond) == 1
 	}
-	if x.sched != nil && x.sched.inCritical {
-		// no restriction
+	var opts []int64
+	if x.mdl != nil {
+		if v, ok := x.mdl.eval(c); ok {
+			// the current model satisfies the path condition, so the side it takes is feasible
+			x.R.cacheHit()
+			x.R.feas(1)
+			other := x.tb.Not(c)
+			if v == 0 {
+				other = c
+			}
+			r := x.sol.CheckWith(other)
+			if r == "unsat" {
+				opts = []int64{int64(v)}
+			} else {
+				opts = []int64{int64(v), int64(v ^ 1)}
+			}
+			x.pushEntry('b', opts, cond(opts[0]))
+			return opts[0] == 1
+		}
 	}
 	x.R.feas(1)
-	rT := x.sol.CheckWith(c)
-	var opts []int64
+	rT := x.checkFetch(c)
 	if rT == "unsat" {
 		opts = []int64{0}
 	} else {
@@ -209,6 +238,59 @@ func (x *Exec) branch(c *Term) bool {
 	}
 	x.pushEntry('b', opts, cond(opts[0]))
 	return opts[0] == 1
+}
+
+// checkFetch: CheckWith(c), and when the answer is sat, keep the model for later branches.
+func (x *Exec) checkFetch(c *Term) string {
+	x.sol.Push()
+	x.sol.Assert(c)
+	r := x.sol.Check()
+	if r == "sat" {
+		x.fetchModel()
+	}
+	x.sol.Pop(1)
+	return r
+}
+
+func (x *Exec) fetchModel() {
+	x.mdl = nil
+	var ts []*Term
+	for _, in := range x.inputs {
+		if in.t.op == OVar {
+			if _, ok := x.sol.declared[in.t.name]; ok {
+				ts = append(ts, in.t)
+			}
+		}
+	}
+	for _, t := range x.auxVars {
+		if _, ok := x.sol.declared[t.name]; ok {
+			ts = append(ts, t)
+		}
+	}
+	m := &model{vals: map[string]uint64{}, memo: map[*Term]evalRes{}}
+	if len(ts) > 0 {
+		vals, err := x.sol.GetValues(ts)
+		if err != nil {
+			return
+		}
+		for i, t := range ts {
+			m.vals[t.name] = vals[i]
+		}
+	}
+	// variables the solver has not seen yet are unconstrained: give them 0 and remember that choice
+	for _, in := range x.inputs {
+		if in.t.op == OVar {
+			if _, ok := m.vals[in.t.name]; !ok {
+				m.vals[in.t.name] = 0
+			}
+		}
+	}
+	for _, t := range x.auxVars {
+		if _, ok := m.vals[t.name]; !ok {
+			m.vals[t.name] = 0
+		}
+	}
+	x.mdl = m
 }
 
 // choose picks one of n alternatives (no solver involved).
@@ -281,8 +363,15 @@ func (x *Exec) assume(c *Term) {
 		x.replayEntry('a', func(int64) *Term { return c })
 		return
 	}
+	if x.mdl != nil {
+		if v, ok := x.mdl.eval(c); ok && v == 1 {
+			x.R.cacheHit()
+			x.pushEntry('a', []int64{1}, c)
+			return
+		}
+	}
 	x.R.feas(1)
-	r := x.sol.CheckWith(c)
+	r := x.checkFetch(c)
 	if r == "unsat" {
 		panic(pathEnd{"assume infeasible"})
 	}
@@ -381,6 +470,7 @@ func (x *Exec) trailSummary() []string {
 }
 
 func (R *Results) feas(n int64) { atomic.AddInt64(&R.Feasibility, n) }
+func (R *Results) cacheHit()    { atomic.AddInt64(&R.CacheHits, 1) }
 
 func (R *Results) addViolation(v Violation) {
 	R.mu.Lock()
@@ -503,6 +593,8 @@ func (x *Exec) resetPath() {
 	x.reached = map[string]bool{}
 	x.mapOrder = 1
 	x.mapRot = -1
+	x.mdl = nil
+	x.auxVars = x.auxVars[:0]
 	x.nextMap = 0
 	x.fileData = map[string]fileStub{}
 	x.hb = nil
